@@ -61,6 +61,7 @@ class SubRun:
     def __init__(self, rng):
         self.rng = rng
         self.events = []
+        self.dropped = set()
         self.loop = vloop.new_loop()
         self.ident = A.Identity()
         self.beh = SubBehaviour(self.ident, self)
@@ -90,10 +91,19 @@ class SubRun:
         self.loop.set_exception_handler(lambda l, c: self.loop_exceptions.append(str(c.get("exception") or c.get("message"))))
 
     def log(self, ev, **kw):
-        if ev in ("tcp_call", "tcp_res", "tcp_ok", "acc_eof", "acc_rx", "acc_tx"):
+        if ev in ("tcp_call", "tcp_res", "tcp_ok", "acc_rx", "acc_tx"):
             return
+        if ev == "acc_eof":
+            # the controller itself abandoned the session (request time-out ...): a drop as far as IpSubs is concerned
+            if kw["conn"] in self.dropped:
+                return
+            ev, kw = "drop", {"s": kw["conn"]}
         if ev == "peer_close":
             ev, kw = "drop", {"s": kw["conn"]}
+        if ev == "drop":
+            if kw["s"] in self.dropped:
+                return
+            self.dropped.add(kw["s"])
         rec = {"ev": ev}
         rec.update(kw)
         self.events.append(rec)
@@ -258,7 +268,7 @@ def stim(r: SubRun, rng):
     if conn is not None:
         held = [q for q in conn.unanswered if getattr(q, "kind", None) == "sub"]
         if held:
-            opts += [("release", conn)] * 6
+            opts += [("release", conn)] * 6 + [("timeout", conn)] * 2
         opts += [("event", conn)] * 6 + [("burst", conn)] * 2 + [("split", conn)] * 2 + [("bad", conn)] * 2
         opts += [("drop", conn, "fin"), ("drop", conn, "rst")]
     opts += [("hold",)]
@@ -272,6 +282,10 @@ def stim(r: SubRun, rng):
         r.op(o[0], rng.sample(CHARS, k))
     elif o[0] == "release":
         r.release_puts(o[1])
+    elif o[0] == "timeout":
+        # the accessory stays silent: the 30 s request timer abandons the connection
+        r.settle()
+        r.loop.advance(31)
     elif o[0] == "event":
         r.event(o[1])
     elif o[0] == "burst":
